@@ -37,6 +37,9 @@ namespace std::chrono { using verif_sysclock = verif::vsys; }
 #include <boost/mqtt5/detail/internal_types.hpp>
 #include <boost/mqtt5/impl/autoconnect_stream.hpp>   // the real one: only to set its include guard
 #include "sim_autoconnect_stream.hpp"
+// the one instrumentation hook in /repo (impl/assemble_op.hpp, guarded): every packet the framing layer dispatches, in dispatch order
+#define BOOST_MQTT5_VERIF
+#define BOOST_MQTT5_VERIF_ON_PACKET(cb, f, l) ::verif::world().ev("pkt " + tohex(std::string(1, (char)(cb))) + " " + tohex(std::string((f), (l))))
 #define autoconnect_stream sim_autoconnect_stream
 #define steady_timer verif_timer
 #define system_clock verif_sysclock
